@@ -88,9 +88,9 @@ theorem conformingSum_at {vs : List Val} {r : Val} {i : Nat} (h : conformingSum 
 
 /-! ### association lists -/
 
-theorem Dict.get?_nil {α} (k : String) : Dict.get? ([] : Dict α) k = none := rfl
+theorem Dict.get?_nil_s {α} (k : String) : Dict.get? ([] : Dict α) k = none := rfl
 
-theorem Dict.get?_cons {α} (p : String × α) (d : Dict α) (k : String) :
+theorem Dict.get?_cons_s {α} (p : String × α) (d : Dict α) (k : String) :
     Dict.get? (p :: d) k = if p.1 = k then some p.2 else Dict.get? d k := by
   unfold Dict.get?
   by_cases h : p.1 = k
@@ -104,7 +104,7 @@ theorem Dict.get?_eq_none_of_not_mem_keys {α} {d : Dict α} {k : String} (h : k
   | nil => rfl
   | cons p d ih =>
     simp only [Dict.keys, List.map_cons, List.mem_cons, not_or] at h
-    rw [Dict.get?_cons, if_neg (fun e => h.1 e.symm)]
+    rw [Dict.get?_cons_s, if_neg (fun e => h.1 e.symm)]
     exact ih h.2
 
 theorem Dict.get?_append {α} (a b : Dict α) (k : String) :
@@ -112,17 +112,17 @@ theorem Dict.get?_append {α} (a b : Dict α) (k : String) :
       | some v => some v
       | none => Dict.get? b k := by
   induction a with
-  | nil => simp [Dict.get?_nil]
+  | nil => simp [Dict.get?_nil_s]
   | cons p a ih =>
-    rw [List.cons_append, Dict.get?_cons, Dict.get?_cons]
+    rw [List.cons_append, Dict.get?_cons_s, Dict.get?_cons_s]
     split <;> simp_all
 
 theorem Dict.get?_map_mk {α} (keys : List String) (F : String → α) (k : String) :
     Dict.get? (keys.map fun x => (x, F x)) k = if k ∈ keys then some (F k) else none := by
   induction keys with
-  | nil => simp [Dict.get?_nil]
+  | nil => simp [Dict.get?_nil_s]
   | cons x xs ih =>
-    rw [List.map_cons, Dict.get?_cons, ih]
+    rw [List.map_cons, Dict.get?_cons_s, ih]
     by_cases h : x = k
     · subst h; simp
     · have : ¬ k = x := fun e => h e.symm
@@ -199,12 +199,12 @@ theorem smMapE_get? {g : String → Except Err (String × Val)} {keys : List Str
     (h : smMapE g keys = .ok d) (hk : ∀ k r, g k = .ok r → r.1 = k) (f : String) :
     (f ∈ keys → ∃ v, g f = .ok (f, v) ∧ d.get? f = some v) ∧ (f ∉ keys → d.get? f = none) := by
   induction keys generalizing d with
-  | nil => simp only [smMapE] at h; cases h; simp [Dict.get?_nil]
+  | nil => simp only [smMapE] at h; cases h; simp [Dict.get?_nil_s]
   | cons k ks ih =>
     obtain ⟨b, bs, hb, hbs, rfl⟩ := smMapE_cons_ok h
     have hb1 := hk k b hb
     have ih' := ih hbs
-    rw [Dict.get?_cons]
+    rw [Dict.get?_cons_s]
     by_cases hkf : k = f
     · subst hkf
       refine ⟨fun _ => ⟨b.2, ?_, by simp [hb1]⟩, fun hn => absurd (List.mem_cons_self) hn⟩
@@ -379,7 +379,7 @@ theorem Dict.get?_map_val {α β} (d : Dict α) (g : α → β) (k : String) :
   induction d with
   | nil => rfl
   | cons p d ih =>
-    rw [List.map_cons, Dict.get?_cons, Dict.get?_cons, ih]
+    rw [List.map_cons, Dict.get?_cons_s, Dict.get?_cons_s, ih]
     split <;> simp
 
 theorem distinct_foldl_head (l : List (Metadata × Nat)) (st : List Metadata × List Nat) (i : Nat)
@@ -779,23 +779,23 @@ theorem attrGcd_eq_some_iff {α} [BEq α] [LawfulBEq α] (c0 : Cell) (rest : Lis
       intro c hc
       simp [h c hc, h c0 (by simp)]
 
-theorem Dict.get?_filter {α} (d : Dict α) (p : String × α → Bool) (k : String) (v : α)
+theorem Dict.get?_filter_s {α} (d : Dict α) (p : String × α → Bool) (k : String) (v : α)
     (hn : d.keys.Nodup) :
     Dict.get? (d.filter p) k = some v ↔ Dict.get? d k = some v ∧ p (k, v) = true := by
   induction d with
-  | nil => simp [Dict.get?_nil]
+  | nil => simp [Dict.get?_nil_s]
   | cons q d ih =>
     simp only [Dict.keys, List.map_cons, List.nodup_cons] at hn
     have ih' := ih hn.2
     by_cases hp : p q = true
-    · rw [List.filter_cons, if_pos hp, Dict.get?_cons, Dict.get?_cons]
+    · rw [List.filter_cons, if_pos hp, Dict.get?_cons_s, Dict.get?_cons_s]
       by_cases hq : q.1 = k
       · rw [if_pos hq, if_pos hq]
         constructor
         · intro h; cases h; refine ⟨rfl, ?_⟩; rw [← hq]; exact hp
         · intro h; exact h.1
       · rw [if_neg hq, if_neg hq]; exact ih'
-    · rw [List.filter_cons, if_neg hp, Dict.get?_cons]
+    · rw [List.filter_cons, if_neg hp, Dict.get?_cons_s]
       by_cases hq : q.1 = k
       · have hnone' : Dict.get? (d.filter p) k = none := by
           apply Dict.get?_eq_none_of_not_mem_keys
@@ -818,7 +818,7 @@ theorem detailsGcd_get? (d0 : Dict MVal) (rest : List (Dict MVal)) (k : String) 
     Dict.get? (detailsGcd (d0 :: rest)) k = some v ↔
       v ≠ .none ∧ ∀ d ∈ d0 :: rest, Dict.get? d k = some v := by
   unfold detailsGcd
-  rw [Dict.get?_filter _ _ _ _ hn]
+  rw [Dict.get?_filter_s _ _ _ _ hn]
   simp only [Bool.and_eq_true, List.all_eq_true, beq_iff_eq, bne_iff_ne, ne_eq, List.mem_cons,
     forall_eq_or_imp]
   constructor
